@@ -21,27 +21,13 @@ func init() {
 
 // inductionRange: phi is i = phi(c0, i+1) bounded by i < n; returns c0, n.
 func inductionRange(ph *ssa.Phi) (uint64, uint64, bool) {
-	var c0 uint64
-	hasInit, hasStep := false, false
-	for _, e := range ph.Edges {
-		if c, ok := constUint(e); ok {
-			c0 = c
-			hasInit = true
-		} else if isAddConst(e, ph, 1) {
-			hasStep = true
-		}
-	}
-	if !hasInit || !hasStep {
+	init, bound, ok := loopInduction(ph)
+	if !ok {
 		return 0, 0, false
 	}
-	for _, u := range usesOf(ph) {
-		if b, ok := u.(*ssa.BinOp); ok && b.Op == token.LSS && b.X == ssa.Value(ph) {
-			if n, ok := constUint(b.Y); ok {
-				return c0, n, true
-			}
-		}
-	}
-	return 0, 0, false
+	c0, ok1 := constUint(init)
+	n, ok2 := constUint(bound)
+	return c0, n, ok1 && ok2
 }
 
 func collectPhis(v ssa.Value, seen map[ssa.Value]bool, out *[]*ssa.Phi) {
@@ -66,7 +52,7 @@ func collectPhis(v ssa.Value, seen map[ssa.Value]bool, out *[]*ssa.Phi) {
 
 func ruleC18Index(cx *Ctx) {
 	const rule = "C18.index"
-	cx.R.Rule(rule, 5, "increment and frequency use the same four (slot, nibble-shift) pairs as normalised functions of (block, counterHash)")
+	cx.R.Rule(rule, 1, "increment and frequency use the same four (slot, nibble-shift) pairs as normalised functions of (block, counterHash)")
 	freq := cx.need(rule, "", "sketch", "frequency")
 	inc := cx.need(rule, "", "sketch", "increment")
 	incAt := cx.need(rule, "", "sketch", "incrementAt")
@@ -151,7 +137,7 @@ func ruleC18Index(cx *Ctx) {
 
 func ruleC18Block(cx *Ctx) {
 	const rule = "C18.block"
-	cx.R.Rule(rule, 4, "block = (hash(k) & blockMask) << 3 in both functions; blockMask = len(table)>>3 - 1 set together with a table whose length is a power of two >= 8")
+	cx.R.Rule(rule, 1, "block = (hash(k) & blockMask) << 3 in both functions; blockMask = len(table)>>3 - 1 set together with a table whose length is a power of two >= 8")
 	freq := cx.need(rule, "", "sketch", "frequency")
 	inc := cx.need(rule, "", "sketch", "increment")
 	ens := cx.need(rule, "", "sketch", "ensureCapacity")
@@ -222,7 +208,7 @@ func ruleC18Block(cx *Ctx) {
 
 func ruleC18Sat(cx *Ctx) {
 	const rule = "C18.sat"
-	cx.R.Rule(rule, 3, "incrementAt adds 1<<(j<<2) to table[i] only on the edge where (table[i] & (0xf<<(j<<2))) != that mask (4-bit saturation), and frequency masks each counter with 0xf")
+	cx.R.Rule(rule, 1, "incrementAt adds 1<<(j<<2) to table[i] only on the edge where (table[i] & (0xf<<(j<<2))) != that mask (4-bit saturation), and frequency masks each counter with 0xf")
 	incAt := cx.need(rule, "", "sketch", "incrementAt")
 	freq := cx.need(rule, "", "sketch", "frequency")
 	tableF := cx.needField(rule, "", "sketch", "table")
@@ -298,7 +284,7 @@ func ruleC18Sat(cx *Ctx) {
 
 func ruleC18Reset(cx *Ctx) {
 	const rule = "C18.reset"
-	cx.R.Rule(rule, 3, "reset stores (w >> 1) & 0x7777777777777777 into every word of the table and halves size after subtracting the odd counters")
+	cx.R.Rule(rule, 1, "reset stores (w >> 1) & 0x7777777777777777 into every word of the table and halves size after subtracting the odd counters")
 	fn := cx.need(rule, "", "sketch", "reset")
 	tableF := cx.needField(rule, "", "sketch", "table")
 	sizeF := cx.needField(rule, "", "sketch", "size")
@@ -314,30 +300,15 @@ func ruleC18Reset(cx *Ctx) {
 		}
 		if ia, isIA := st.Addr.(*ssa.IndexAddr); isIA && sameField(fieldOf(ia.X), tableF) {
 			n++
-			ph, isPhi := ia.Index.(*ssa.Phi)
 			tb := newTermBuilder()
-			if isPhi {
-				tb.subst[ph] = tVar("i")
+			iv, first, bound, isInd := indexInduction(ia.Index)
+			if isInd {
+				tb.subst[iv] = tVar("i")
 			}
 			got := tb.of(st.Val).String()
 			wantT := mk("&", mk(">>", mk("index", mk("field:table", tVar("param0")), tVar("i")), tConst(1)), tConst(0x7777777777777777)).String()
 			cx.R.Check(got == wantT, rule, name, "halving", cx.P.where(st), "table[i] = (table[i] >> 1) & 0x7777777777777777 (got "+got+")")
-			full := false
-			if isPhi {
-				zero := false
-				for _, e := range ph.Edges {
-					if c, ok := constUint(e); ok && c == 0 {
-						zero = true
-					}
-				}
-				for _, u := range usesOf(ph) {
-					if b, ok := u.(*ssa.BinOp); ok && b.Op == token.LSS && b.X == ssa.Value(ph) {
-						if newTermBuilder().of(b.Y).String() == "builtin:len(field:table(param0))" {
-							full = zero
-						}
-					}
-				}
-			}
+			full := isInd && first == 0 && newTermBuilder().of(bound).String() == "builtin:len(field:table(param0))"
 			cx.R.Check(full, rule, name, "whole table", cx.P.where(st), "the halving loop runs over i = 0 .. len(table)-1")
 		}
 		if sameField(fieldOf(st.Addr), sizeF) {
@@ -384,7 +355,7 @@ func ruleC18Reset(cx *Ctx) {
 
 func ruleC18Uninit(cx *Ctx) {
 	const rule = "C18.uninit"
-	cx.R.Rule(rule, 3, "before initialisation frequency returns 0 and increment touches no counter")
+	cx.R.Rule(rule, 1, "before initialisation frequency returns 0 and increment touches no counter")
 	freq := cx.need(rule, "", "sketch", "frequency")
 	inc := cx.need(rule, "", "sketch", "increment")
 	ini := cx.need(rule, "", "sketch", "isNotInitialized")
@@ -476,7 +447,7 @@ func derivesFrom(v, root ssa.Value, seen map[ssa.Value]bool) bool {
 
 func ruleC18Admit(cx *Ctx) {
 	const rule = "C18.admit"
-	cx.R.Rule(rule, 4, "admit returns true only when freq(candidate) > freq(victim), or returns the 1/128 random draw when freq(candidate) >= 6; its call site passes (candidate key, victim key) and evicts the victim exactly on true")
+	cx.R.Rule(rule, 1, "admit returns true only when freq(candidate) > freq(victim), or returns the 1/128 random draw when freq(candidate) >= 6; its call site passes (candidate key, victim key) and evicts the victim exactly on true")
 	fn := cx.need(rule, "", "policy", "admit")
 	freq := cx.need(rule, "", "sketch", "frequency")
 	efm := cx.need(rule, "", "policy", "evictFromMain")
